@@ -155,6 +155,12 @@ def run(ctx):
                        'from the batch after the latest user code ran (never through a pointer saved across a handler call): '
                        'what a handler cancelled is not run', floor=2)
     ctx.section(cancelled)
+    ctx.rule('R-C04j', 'the deadline is an absolute time on the loop\'s clock all the way into the kernel: where a kernel timer is programmed for '
+                       'the deadline (timerfd_settime), the value and the flags handed over -- evaluated along every path for deadlines ahead, '
+                       'passed and zero -- make the timer fire, and not later than the deadline plus one millisecond (an absolute value needs the '
+                       'absolute-time flag, an interval must have been converted from the loop clock, a zero value disarms); the timer counts on '
+                       'the clock that iv_time_get() reads', floor=9)
+    ctx.section(absolute)
 
 
 def _method_poll(e):
@@ -1803,3 +1809,217 @@ def cancelled(ctx, rid='R-C04i'):
                    path=None if ok else path_to(g, c), fn=root.q)
     if not n:
         raise AnalysisBroken('no call through a timer\'s handler found in the contexts that expire timers')
+
+
+# --------------------------------------------------------------------------
+# R-C04j: the deadline that reaches a kernel timer is taken as what it is
+# --------------------------------------------------------------------------
+
+# kernel calls that program a timer from a time value: (flags argument, new-value argument, bit of the flags argument that makes
+# the kernel read the value as an absolute time on the timer's clock -- without it the value is an interval from now)
+KERNEL_TIMERS = {'timerfd_settime': (1, 2, 1)}
+TIMER_CLOCKS = {'timerfd_create': 0}               # creation of the timer: argument that names the clock it counts on
+CLOCK_READS = {'clock_gettime': 0}                 # reading a clock: argument that names it
+_STRUCT_FIELDS = {'timespec': (('tv_sec',), ('tv_nsec',)),
+                  'itimerspec': (('it_value', 'tv_sec'), ('it_value', 'tv_nsec'), ('it_interval', 'tv_sec'), ('it_interval', 'tv_nsec'))}
+_REC_RE = __import__('re').compile(r'struct\s+(\w+)')
+
+
+def _struct_rec(l):
+    """record name when lvalue l is a struct object (not a pointer to one), else None"""
+    l = strip(l)
+    if not isinstance(l, dict):
+        return None
+    if l.get('k') == 'var':
+        return l.get('record') if not l.get('ptr') else None
+    if l.get('k') == 'member':
+        return l.get('trecord') if not l.get('tptr') else None
+    t = l.get('type') or ''
+    m = _REC_RE.search(t)
+    return m.group(1) if m and '*' not in t else None
+
+
+def _sub(z, fields):
+    """lvalue z.f1.f2 (through `->` when z is `*p`)"""
+    for f in fields:
+        zs = z
+        if isinstance(zs, dict) and zs.get('k') == 'deref':
+            z = {'k': 'member', 'arrow': True, 'base': zs['e'], 'field': f}
+        else:
+            z = {'k': 'member', 'arrow': False, 'base': zs, 'field': f}
+    return z
+
+
+def absolute(ctx, rid='R-C04j'):
+    """What a kernel timer makes of the deadline.  Every context (exported function / method slot, helpers inlined) that
+    reaches a call which programs a kernel timer and that is given the deadline (its one `struct timespec *` parameter) is
+    executed on concrete values -- loop clock NOW (valid), absolute deadline NOW + d, and the zero deadline -- along every
+    path to that call.  There the value handed to the kernel and the flags are read off the path's memory, and the moment
+    the timer fires follows from the kernel's reading: the value itself when the absolute-time flag is set, NOW + value
+    when it is not, never when the value is zero (that disarms).  Demanded: it fires, and not later than the deadline (the
+    current time for a deadline that passed) plus the millisecond the property allows.  How the value gets there (struct copy,
+    field by field, through a snapshot, converted to an interval and armed without the flag) is free.
+    And: the clock the timer counts on is the one the loop's clock reader reads (first, from the program's initial state)."""
+    prog = ctx.prog
+    h.bind(prog)
+    ctxs = h.contexts(prog, lambda e: is_call(e, tuple(KERNEL_TIMERS)), stop=SLOT_STOP)
+    if not ctxs:
+        raise AnalysisBroken('no call that programs a kernel timer (%s) found' % ', '.join(sorted(KERNEL_TIMERS)))
+    future = [(0, 1), (0, 999999), (3, 500000), (7, 999999999)]
+    past = [(0, 0), (-1, 0), (-2, 400000001)]
+    ZERO = 'zero'
+    now_ns = NOW[0] * 1000000000 + NOW[1]
+    seen = {}
+    narm = 0
+    for (root, g, sites) in ctxs:
+        ps = [p['name'] for p in root.params if p.get('ptr') and p.get('record') == 'timespec']
+        if len(ps) != 1:
+            continue                                   # no deadline is given to this context: it does not arm for one
+        narm += 1
+        absn = ps[0]
+        copies = h.ptr_copies(g)
+        pvar = {'k': 'load', 'e': {'k': 'var', 'name': absn, 'vk': 'param', 'ptr': True, 'record': 'timespec'}}
+        keys = {('A', 'tv_sec'): {h.ts_key({'k': 'deref', 'e': pvar}, 'tv_sec')}, ('A', 'tv_nsec'): {h.ts_key({'k': 'deref', 'e': pvar}, 'tv_nsec')},
+                ('B', 'tv_sec'): set(), ('B', 'tv_nsec'): set()}
+        valid_keys = set()
+        for x0, cp in _all_exprs(g, copies):
+            for x in walk(x0):
+                if x.get('k') == 'member' and x.get('field') in h.TS_FIELDS:
+                    z = h.ts_operand(x, cp)
+                    if z and h.deref_of_var(z[0]) == absn:
+                        keys[('A', z[1])] |= {canon(x), h.ts_key(z[0], z[1])}
+                    elif z and h.is_clock(z[0]):
+                        keys[('B', z[1])] |= {canon(x), h.ts_key(z[0], z[1])}
+                elif x.get('k') == 'member' and h.is_flag(x):
+                    valid_keys.add(canon(x))
+
+        def hook(e, env, asg, path, keys=keys, copies=copies):
+            if h.is_clock_read(e, copies.get((e['_b'], e['_i']), {})):
+                for k in keys[('B', 'tv_sec')]:
+                    path['mem'][k] = NOW[0]
+                for k in keys[('B', 'tv_nsec')]:
+                    path['mem'][k] = NOW[1]
+            if e['ev'] == 'store' and e.get('op') == '=' and 'rhs' in e:
+                rec = _struct_rec(e['lhs'])
+                if rec in _STRUCT_FIELDS:
+                    # assignment of a whole time value: its fields go along
+                    dst = strip(h._through(e['lhs'], path['ptrs']))
+                    src = strip(h._through(e['rhs'], path['ptrs']))
+                    for fs in _STRUCT_FIELDS[rec]:
+                        try:
+                            v = path['eval']({'k': 'load', 'e': _sub(src, fs)}) if isinstance(src, dict) and src.get('k') in ('var', 'member', 'deref', 'index') else None
+                        except interp.Undecided:
+                            v = None
+                        k_ = canon(_sub(dst, fs))
+                        if v is None:
+                            path['mem'].pop(k_, None)
+                        else:
+                            path['mem'][k_] = v
+            if is_call(e, tuple(KERNEL_TIMERS)):
+                fi, vi, bit = KERNEL_TIMERS[e['callee']]
+                got = {'sink': e}
+                try:
+                    got['flags'] = path['eval'](e['args'][fi])
+                except (interp.Undecided, IndexError):
+                    got['flags'] = None
+                p = strip(h._through(e['args'][vi], path['ptrs'])) if len(e.get('args', [])) > vi else None
+                z = p['e'] if isinstance(p, dict) and p.get('k') == 'addr' else ({'k': 'deref', 'e': e['args'][vi]} if p is not None else None)
+                for nm, fs in (('sec', ('it_value', 'tv_sec')), ('nsec', ('it_value', 'tv_nsec'))):
+                    try:
+                        got[nm] = path['eval']({'k': 'load', 'e': _sub(z, fs)}) if z is not None else None
+                    except interp.Undecided:
+                        got[nm] = None
+                path['armed'] = got
+                raise h.Stop()
+        for d in future + past + [ZERO]:
+            if d == ZERO:
+                dl = (0, 0)
+            else:
+                tot = now_ns + d[0] * 1000000000 + d[1]
+                dl = (tot // 1000000000, tot % 1000000000)
+            ints = {}
+            for k in keys[('A', 'tv_sec')]:
+                ints[k] = dl[0]
+            for k in keys[('A', 'tv_nsec')]:
+                ints[k] = dl[1]
+            for k in keys[('B', 'tv_sec')]:
+                ints[k] = NOW[0]
+            for k in keys[('B', 'tv_nsec')]:
+                ints[k] = NOW[1]
+            for k in valid_keys:
+                ints[k] = h.ROLE['valid']
+            for path in h.explore(g, bools={absn: True}, ints=ints, on_event=hook, goal_blocks={e['_b'] for e in sites}):
+                if 'armed' in path:
+                    seen.setdefault(d, []).append((path['armed'], root, dl))
+    if not narm:
+        raise AnalysisBroken('no context that programs a kernel timer is given a deadline (one struct timespec * parameter)')
+    for d in future + past + [ZERO]:
+        got = seen.get(d, [])
+        if not got:
+            raise AnalysisBroken('absolute: the call that programs the kernel timer is not reached for deadline %s' % (d,))
+        bad, details = [], []
+        for (a, root, dl) in got:
+            bit = KERNEL_TIMERS[a['sink']['callee']][2]
+            if a['flags'] is None or a['sec'] is None or a['nsec'] is None:
+                raise AnalysisBroken('absolute: %s: the value / flags handed to %s are not determined by the evaluated path (flags %s, value %s s %s ns)'
+                                     % (root.name, a['sink']['callee'], a['flags'], a['sec'], a['nsec']))
+            v_ns = a['sec'] * 1000000000 + a['nsec']
+            isabs = bool(a['flags'] & bit)
+            limit = max(dl[0] * 1000000000 + dl[1], now_ns) + 1000000
+            if a['sec'] == 0 and a['nsec'] == 0:
+                verdict, fire = 'is disarmed by the zero value: it never fires', None
+            elif a['sec'] < 0 or not (0 <= a['nsec'] < 1000000000):
+                verdict, fire = 'is refused by the kernel (invalid time value)', None
+            else:
+                fire = v_ns if isabs else now_ns + v_ns
+                verdict = 'fires at %d.%09d' % (fire // 1000000000, fire % 1000000000)
+            ok = fire is not None and fire <= limit
+            what = '%s(value %d s %d ns, %s): %s' % (a['sink']['callee'], a['sec'], a['nsec'],
+                                                     'absolute-time flag set' if isabs else 'no absolute-time flag: an interval from now', verdict)
+            details.append(what)
+            if not ok:
+                bad.append((a, root, what))
+        first = (bad or [(got[0][0], got[0][1], details[0])])[0]
+        name = 'arm(zero deadline)' if d == ZERO else ('arm(sec=%d,nsec=%d)' % d if d in future else 'arm(past:sec=%d,nsec=%d)' % d)
+        dl = got[0][2]
+        ctx.ob(rid, name + ':fires-by-the-deadline', not bad, loc=first[0]['sink']['loc'], fn=first[1].q,
+               detail='loop clock %d.%09d, absolute deadline %d.%09d: %s; the kernel timer that stands in for the wait\'s deadline must fire, and not '
+                      'later than the deadline (now, for one that passed) plus one millisecond -- the waits that rely on it have no timeout of their own'
+                      % (NOW[0], NOW[1], dl[0], dl[1], first[2]))
+    # the clock the kernel timer counts on
+    reader = prog.fn('iv_time_get')
+    rg = h.inline_root(prog, reader)
+    # the loop's clock: the clock the reader reads first when evaluated from the program's initial state (integer variables with
+    # static storage at their initialiser, 0 without one); clocks it falls back to after a failure are not what the deadlines
+    # of a running loop are measured on
+    init = {}
+    for x0, _cp in _all_exprs(rg, {}):
+        for x in walk(x0):
+            if x.get('k') == 'var' and x.get('vk') == 'global' and _is_int_lvalue(x):
+                gl = [v for v in prog.globals.values() if v.get('name') == x['name'] and not v.get('extern_decl')]
+                iv = h.const_of(gl[0]['init']) if len(gl) == 1 and isinstance(gl[0].get('init'), dict) else (0 if len(gl) == 1 and 'init' not in gl[0] else None)
+                if iv is not None:
+                    init[canon(x)] = iv
+    read = set()
+
+    def first_read(e, env, asg, path):
+        if is_call(e, tuple(CLOCK_READS)):
+            c = h.const_of(e['args'][CLOCK_READS[e['callee']]]) if e.get('args') else None
+            if c is not None:
+                read.add(c)
+            raise h.Stop()
+    h.explore(rg, ints=init, on_event=first_read)
+    ncl = 0
+    for f in sorted(prog.all_funcs(), key=lambda f: f.q):
+        bysite = {}
+        for e in f.events():
+            if is_call(e, tuple(TIMER_CLOCKS)):
+                c = h.const_of(e['args'][TIMER_CLOCKS[e['callee']]]) if e.get('args') else None
+                bysite[e['loc']] = (e, c)
+        for loc, (e, c) in sorted(bysite.items()):
+            ncl += 1
+            ctx.ob(rid, '%s:counts-on-the-loop-clock' % e['callee'], c is not None and c in read, loc=loc, fn=f.q,
+                   detail='the kernel timer is created on clock id %s; the deadlines it is armed with are times on the clock iv_time_get() reads '
+                          '(clock id %s, the one it reads first from the initial state): an absolute time armed on another clock is a different moment' % (c, sorted(read)))
+    if not ncl:
+        raise AnalysisBroken('no creation of a kernel timer (%s) found' % ', '.join(sorted(TIMER_CLOCKS)))
